@@ -23,16 +23,21 @@ def gen_inputs(ctx):
             for t in (PUBVERS if not q else rng.sample(PUBVERS, 2)):
                 for sub in ([rng.choice(subs), [rng.randrange(H) for _ in range(rng.randrange(0, 4))]] if q else
                             subs + [[rng.randrange(H) for _ in range(rng.randrange(1, 4))]]):
-                    out.append(("Watch", {"root": root, "export": [idx4(i) for i in ex],
+                    out.append(("Watch", {"root": root, "export": [idx4(i) for i in ex], "route": "node",
                                           "version": B(W.VERSIONS[t].to_bytes(4, "big")), "sub": [idx4(i) for i in sub]},
                                 ("watch", len(ex), t, len(sub))))
+            # the key exported through the full wallet's own node_extended_keys(): same network, same data
+            out.append(("Watch", {"root": root, "export": [idx4(i) for i in ex], "route": "wallet",
+                                  "version": B(bytes(4)), "sub": [idx4(i) for i in rng.choice(subs)]},
+                        ("watch-wallet-route", len(ex), root["net"])))
     return out
 
 
 def describe(ev):
     i = ev["inp"]
-    return "watch-only wallet from version %s of the node at depth %d, sub-path of length %d" % (
-        bytes(i["version"]).hex(), len(i["export"]), len(i["sub"]))
+    return "watch-only wallet from %s of the %s node at depth %d, sub-path of length %d" % (
+        "version " + bytes(i["version"]).hex() if i["route"] == "node" else "node_extended_keys()['pub']", i["root"]["net"],
+        len(i["export"]), len(i["sub"]))
 
 
 def mut(e):
